@@ -259,6 +259,39 @@ func genC15(t *Tape) *Plan {
 	return g.plan
 }
 
+// oldTeardown says, for a session found discarded by connection cur, when the handler of the connection *before*
+// the session's last one ran its disconnect hook (the step right before the end-of-connection cleanup that may
+// delete registry entries by client id): before or after the last connection's CONNACK was written. The known
+// takeover race needs that cleanup decision to be taken before the successor marks the old client as taken over,
+// hence before the successor's CONNACK; a cleanup decided later that still removes the successor is something else.
+func oldTeardown(r *Result, id string, cur *Conn) string {
+	var cs []*Conn
+	for _, x := range r.Ex.Conns {
+		if x.CID == id && x.openSeq < cur.openSeq {
+			if ca := connack(x); ca != nil && ca.P.ReasonCode == 0 {
+				cs = append(cs, x)
+			}
+		}
+	}
+	if len(cs) < 2 {
+		return "none"
+	}
+	b, a := cs[len(cs)-1], cs[len(cs)-2]
+	hd := -1
+	for _, e := range r.H.Evs {
+		if e.Kind == "hook" && e.Str == "disconnect" && e.Conn == a.Idx {
+			hd = e.Seq
+		}
+	}
+	switch {
+	case hd < 0:
+		return "none"
+	case hd > connack(b).Seq:
+		return "after-successor-connack"
+	}
+	return "before-successor-connack"
+}
+
 func checkC15(r *Result) []Violation {
 	var out []Violation
 	S := map[string]*c15State{}
@@ -284,10 +317,12 @@ func checkC15(r *Result) []Violation {
 	for wi := range ws {
 		w := &ws[wi]
 		touch := map[string]int{}
+		nconn := map[string]int{}
 		for _, oi := range w.Ops {
 			op := &r.Plan.Ops[oi]
 			if op.Kind == "connect" && op.Pkt != nil {
 				touch[op.Pkt.ClientID]++
+				nconn[op.Pkt.ClientID]++
 			} else if c := m.connOfOp(oi); c != nil && (op.Kind == "disconnect" || op.Kind == "drop" || op.Kind == "close") {
 				touch[c.CID]++
 			}
@@ -343,7 +378,7 @@ func checkC15(r *Result) []Violation {
 				case st.exists && st.persistent && elapsed < int64(st.eff)*1000:
 					if !ca.P.SessionPresent {
 						out = append(out, viol("C15", "discarded-before-expiry", fmt.Sprintf("conn %d: session %q (effective expiry %d s) disconnected at t=%dms; reconnect at t=%dms found it discarded", c.Idx, id, st.eff, st.discVT, ca.VT), ca.Seq,
-							"eff", fmt.Sprint(st.eff), "ver", verClass(c.Ver)))
+							"eff", fmt.Sprint(st.eff), "ver", verClass(c.Ver), "old_teardown", oldTeardown(r, id, c)))
 					}
 				case !st.exists:
 					if ca.P.SessionPresent {
@@ -351,6 +386,7 @@ func checkC15(r *Result) []Violation {
 					}
 				}
 			}
+			_ = nconn
 			st.ambiguous = overlapping
 			st.exists = true
 			st.discarded = false
